@@ -48,7 +48,7 @@ def domname_rows(run):
     import os, sys
     from harness import tlc, matrix
     from harness.report import Machinery
-    sys.path.insert(0, "/repo")
+    sys.path.insert(0, __import__("os").environ.get("VERIF_REPO", "/repo"))
     import cssutils.profiles
     names = sorted({n for g in cssutils.profiles.properties for n in cssutils.profiles.properties[g]})
     path = os.path.join(run.work, "names.ndjson")
